@@ -98,6 +98,21 @@ func genSimCase(r *lib.RNG, name string, geth bool) *Case {
 		c.PollMicros = lib.Pick(r, []int{300, 500})
 		wAdvance, wFin, wReorg, wSub, wFinFail = 30, 50, 82, 90, 93
 	}
+	if geth {
+		// logs of other contracts / other events of the core contract in the same blocks, with
+		// tempting values (high Starknet block numbers)
+		for k := r.Range(0, 3); k > 0; k-- {
+			l2 := uint64(r.Range(500, 600))
+			c.Decoys = append(c.Decoys, Log{L2: l2, Hash: l2 * 16, Root: l2*16 + 0x1000,
+				L1: uint64(r.Range(0, int(c.Latest))), Decoy: r.Range(1, 2)})
+		}
+		if r.Chance(1, 10) {
+			c.ChainIDFails = r.Range(1, 2)
+		}
+		if r.Chance(1, 25) {
+			c.ChainIDMismatch = true
+		}
+	}
 	if !geth && r.Chance(1, 6) {
 		c.FilterFailAt = r.Range(0, 3)
 	}
@@ -121,7 +136,6 @@ func genSimCase(r *lib.RNG, name string, geth bool) *Case {
 	}
 	if !geth && r.Chance(1, 7) {
 		c.Mode = "oneshot"
-		c.ChainIDFails = 0
 		return c
 	}
 	maybeSync := func() {
@@ -129,8 +143,25 @@ func genSimCase(r *lib.RNG, name string, geth bool) *Case {
 			c.Ops = append(c.Ops, Op{Kind: "sync"})
 		}
 	}
+	if r.Chance(1, 4) && len(c.Hist) > 0 {
+		// the subscription starts by re-delivering the tail of what the scan has already seen
+		k := r.Range(1, 3)
+		if k > len(c.Hist) {
+			k = len(c.Hist)
+		}
+		c.Ops = append(c.Ops, Op{Kind: "send", Logs: append([]Log{}, c.Hist[len(c.Hist)-k:]...)})
+		maybeSync()
+	}
 	nops := r.Range(0, 12)
 	for i := 0; i < nops; i++ {
+		if geth && r.Chance(1, 12) {
+			l2 := uint64(r.Range(700, 800))
+			c.Ops = append(c.Ops, Op{Kind: "send", Logs: []Log{{L2: l2, Hash: l2 * 16, Root: l2*16 + 0x1000,
+				L1: uint64(r.Range(0, int(s.latest()))), Decoy: r.Range(1, 2)}}})
+		}
+		if geth && r.Chance(1, 15) {
+			c.Ops = append(c.Ops, Op{Kind: "finnotfound", N: r.Range(1, 2)}, Op{Kind: "sync"})
+		}
 		switch x := r.Intn(100); {
 		case x < wAdvance: // advance
 			var logs []Log
@@ -430,6 +461,120 @@ func catchupGrid(r *lib.RNG, n int) []*Case {
 		out = append(out, c)
 	}
 	return out
+}
+
+// ---- family "faults": every combination of start-up faults on one small history -----------
+
+func faultCases() []*Case {
+	hist := []Log{{L2: 1, Hash: 0x10, Root: 0x1010, L1: 1}, {L2: 2, Hash: 0x20, Root: 0x1020, L1: 3},
+		{L2: 3, Hash: 0x30, Root: 0x1030, L1: 5}, {L2: 4, Hash: 0x40, Root: 0x1040, L1: 5}}
+	live := Log{L2: 5, Hash: 0x50, Root: 0x1050, L1: 7}
+	type st struct {
+		h  *HeadJ
+		l1 uint64
+	}
+	stored := []st{{nil, 0}, {&HeadJ{1, 0x10, 0x1010}, 1}, {&HeadJ{2, 0x20, 0x1020}, 3}}
+	var out []*Case
+	for _, mode := range []string{"run", "oneshot"} {
+		for _, cf := range []int{0, 2} {
+			for _, mm := range []bool{false, true} {
+				for _, lf := range []bool{false, true} {
+					for _, ff := range []bool{false, true} {
+						for _, fa := range []int{-1, 0, 1, 2} {
+							for _, f2 := range []int{0, 1} {
+								for _, wf := range []int{0, 2} {
+									for si, sh := range stored {
+										if mode == "oneshot" && wf > 0 {
+											continue
+										}
+										c := &Case{Family: "faults", Mode: mode, Stored: sh.h, StoredL1: sh.l1, Chunk: 2,
+											Hist: hist, Latest: 6, Fin1: 3, Fin2: 4, ChainIDFails: cf, ChainIDMismatch: mm,
+											LatestFail: lf, Fin1Fail: ff, FilterFailAt: fa, Fin2Fails: f2, WatchFails: wf,
+											PollMicros: 100, Canonical: true,
+											Ops: []Op{{Kind: "send", Logs: []Log{live}}, {Kind: "sync"}, {Kind: "fin", Fin: 7}, {Kind: "sync"}}}
+										c.Name = fmt.Sprintf("faults-%s-c%d-m%v-l%v-f%v-q%d-p%d-w%d-s%d", mode, cf, mm, lf, ff, fa, f2, wf, si)
+										out = append(out, c)
+									}
+								}
+							}
+						}
+					}
+				}
+			}
+		}
+	}
+	return out
+}
+
+// ---- exhaustive small catch-up space + uint64 boundaries ---------------------------------
+
+func exhaustiveCatchups(maxLatest int) []*Case {
+	var out []*Case
+	for latest := 0; latest <= maxLatest; latest++ {
+		nblk := latest + 2 // one block beyond `latest`
+		for mask := 0; mask < 1<<nblk; mask++ {
+			var hist []Log
+			l2 := uint64(1)
+			for b := 0; b < nblk; b++ {
+				if mask&(1<<b) != 0 {
+					hist = append(hist, Log{L2: l2, Hash: l2 * 16, Root: l2*16 + 0x1000, L1: uint64(b)})
+					l2++
+				}
+			}
+			for chunk := 1; chunk <= latest+2; chunk++ {
+				for fin1 := 0; fin1 <= latest; fin1++ {
+					for _, fin2 := range []int{fin1, latest + 1} {
+						out = append(out, &Case{Name: fmt.Sprintf("xgrid-%d-%x-%d-%d-%d", latest, mask, chunk, fin1, fin2),
+							Family: "xgrid", Mode: "oneshot", FilterFailAt: -1, Canonical: true, Hist: hist,
+							Latest: uint64(latest), Fin1: uint64(fin1), Fin2: uint64(fin2), Chunk: uint64(chunk), PollMicros: 100})
+					}
+				}
+			}
+		}
+	}
+	return out
+}
+
+func boundaryCases() []*Case {
+	const max = ^uint64(0)
+	big := func(l2, l1 uint64) Log { return Log{L2: l2, Hash: l2 % 1000, Root: l2%1000 + 7, L1: l1} }
+	mk := func(name string, c Case) *Case {
+		c.Name, c.Family, c.FilterFailAt, c.Canonical = "boundary-"+name, "boundary", -1, true
+		if c.PollMicros == 0 {
+			c.PollMicros = 100
+		}
+		return &c
+	}
+	return []*Case{
+		// the scan starts at the largest uint64: `to+1` wraps, one query [0, max]
+		mk("latest-max-chunk-1000", Case{Mode: "oneshot", Chunk: 1000, Latest: max, Fin1: max - 5, Fin2: max,
+			Hist: []Log{big(1<<40, 7), big(1<<40+1, max-6), big(1<<40+2, max)}}),
+		mk("latest-max-chunk-max", Case{Mode: "oneshot", Chunk: max, Latest: max, Fin1: 0, Fin2: max - 1,
+			Hist: []Log{big(5, 0), big(6, max-1), big(7, max)}}),
+		mk("latest-max-minus-1", Case{Mode: "oneshot", Chunk: max, Latest: max - 1, Fin1: max - 1, Fin2: max - 1,
+			Hist: []Log{big(5, 0), big(6, max-1), big(7, max)}}),
+		mk("chunk-equals-latest-plus-1", Case{Mode: "oneshot", Chunk: 8, Latest: 7, Fin1: 0, Fin2: 7,
+			Hist: []Log{big(5, 0), big(6, 7)}}),
+		mk("chunk-equals-latest", Case{Mode: "oneshot", Chunk: 7, Latest: 7, Fin1: 0, Fin2: 7,
+			Hist: []Log{big(5, 0), big(6, 7)}}),
+		// finalised height 0 and an event in L1 block 0; Starknet block numbers around 2^32 and 2^64
+		mk("fin-0-block-0", Case{Mode: "run", Chunk: 3, Latest: 0, Fin1: 0, Fin2: 0, Hist: []Log{big(0, 0)},
+			Ops: []Op{{Kind: "sync"}, {Kind: "send", Logs: []Log{big(1<<32, 1)}}, {Kind: "sync"}, {Kind: "fin", Fin: 1}, {Kind: "sync"}}}),
+		mk("l2-around-2-pow-32", Case{Mode: "run", Chunk: 3, Latest: 2, Fin1: 2, Fin2: 2, LatestFail: true,
+			Ops: []Op{{Kind: "send", Logs: []Log{big(1<<32-1, 1)}}, {Kind: "sync"}, {Kind: "send", Logs: []Log{big(1<<32, 2)}}, {Kind: "sync"},
+				{Kind: "send", Logs: []Log{big(1<<32-1, 1)}}, {Kind: "sync"}}}),
+		mk("l2-max", Case{Mode: "run", Chunk: 3, Latest: 2, Fin1: max, Fin2: max, LatestFail: true,
+			Ops: []Op{{Kind: "send", Logs: []Log{big(max-1, 1)}}, {Kind: "sync"}, {Kind: "send", Logs: []Log{big(max, max)}}, {Kind: "sync"},
+				{Kind: "send", Logs: []Log{{L2: max - 1, Hash: (max - 1) % 1000, Root: (max-1)%1000 + 7, L1: 1}}}, {Kind: "sync"}}}),
+		mk("removal-at-max", Case{Mode: "run", Chunk: 3, Latest: 2, Fin1: 1, Fin2: 1, LatestFail: true,
+			Ops: []Op{{Kind: "send", Logs: []Log{big(9, max)}}, {Kind: "sync"},
+				{Kind: "send", Logs: []Log{{L2: 9, Hash: 9, Root: 16, L1: max, Removed: true}}}, {Kind: "sync"}, {Kind: "fin", Fin: max}, {Kind: "sync"}}}),
+		mk("stored-newer-than-scan", Case{Mode: "run", Chunk: 2, Latest: 9, Fin1: 6, Fin2: 6, Stored: &HeadJ{9, 9, 16}, StoredL1: 6,
+			Hist: []Log{big(7, 2), big(8, 4)}, // the node's history lacks the log the stored head came from
+			Ops:  []Op{{Kind: "sync"}, {Kind: "send", Logs: []Log{big(10, 8)}}, {Kind: "sync"}, {Kind: "fin", Fin: 8}, {Kind: "sync"}}}),
+		mk("stored-older-than-scan", Case{Mode: "run", Chunk: 2, Latest: 9, Fin1: 6, Fin2: 6, Stored: &HeadJ{7, 7, 14}, StoredL1: 2,
+			Hist: []Log{big(7, 2), big(8, 4)}, Ops: []Op{{Kind: "sync"}}}),
+	}
 }
 
 // L11 of DESIGN.md §7, as a fixed case: the probe that tells which code variant is present.
